@@ -1,2 +1,264 @@
-(* Proofs/FastaProofsC.v *)
+(* Proofs/FastaProofsC.v — the writer's output (and its CRLF / re-wrapped /
+   no-final-newline variants) is a layout; trailing line breaks are ignored. *)
 From Bio Require Import Base.
+From Bio.Model Require Import Fasta.
+From Bio.Spec Require Import FastaSpec.
+From Bio.Proofs Require Import FastaProofs FastaProofsB.
+
+(* ---- lines -> Body -> RecL -> Layout ---------------------------------- *)
+
+Lemma body_of_lines l nl cs : sep nl -> Forall chunk cs ->
+  Body l (concat cs) (concat (map (fun c => c ++ nl) cs)).
+Proof.
+  intros Hs. induction 1 as [|c cs Hc _ IH]; cbn [map concat]; [constructor|].
+  rewrite <- app_assoc. apply B_cons; assumption.
+Qed.
+
+Lemma pieces_are_chunks cs :
+  Forall (fun c => (1 <= length c)%nat) cs -> clean [LF; CR; GT] (concat cs) -> Forall chunk cs.
+Proof.
+  induction 1 as [|c cs Hc _ IH]; intros H; [constructor|].
+  cbn [concat] in H. apply Forall_app in H as [A B].
+  constructor; [|apply IH; exact B].
+  split; [|exact A]. intros ->. cbn in Hc. lia.
+Qed.
+
+Lemma recl_of_lines l nl r cs :
+  fa_ok r -> sep nl -> Forall (fun c => (1 <= length c)%nat) cs -> concat cs = seq r ->
+  RecL l r (GT :: name r ++ nl ++ concat (map (fun c => c ++ nl) cs)).
+Proof.
+  intros [Hn Hq] Hs Hlen Hcat. apply R_intro.
+  - apply clean2_swap. exact Hn.
+  - exact Hs.
+  - rewrite <- Hcat. apply body_of_lines; [exact Hs|].
+    apply pieces_are_chunks; [exact Hlen|]. rewrite Hcat. apply clean3_swap. exact Hq.
+Qed.
+
+Lemma layout_of_render (f : fasta -> bytes) rs :
+  Forall (fun r => forall l, RecL l r (f r)) rs -> Layout rs (concat (map f rs)).
+Proof.
+  induction 1 as [|r rs Hr _ IH]; [constructor|].
+  destruct rs as [|r' rs'].
+  - cbn [map concat]. rewrite app_nil_r. apply L_last. apply Hr.
+  - change (concat (map f (r :: r' :: rs'))) with (f r ++ concat (map f (r' :: rs'))).
+    apply L_cons; [apply Hr | discriminate | exact IH].
+Qed.
+
+(* ---- the writer's lines ------------------------------------------------- *)
+
+Lemma chunks_pieces s : Forall (fun c => (1 <= length c)%nat) (chunks s).
+Proof.
+  unfold chunks. eapply Forall_impl; [|apply chunks_aux_len, Nat.le_refl].
+  cbn beta. intros c H. lia.
+Qed.
+
+Lemma sep_lf : sep [LF].
+Proof. split; [discriminate | repeat constructor]. Qed.
+Lemma sep_crlf : sep [CR; LF].
+Proof. split; [discriminate | repeat constructor]. Qed.
+
+Lemma write_is_write_nl r : write r = write_nl [LF] r.
+Proof. apply write_eq. Qed.
+
+Lemma recl_write_nl nl l r : fa_ok r -> sep nl -> RecL l r (write_nl nl r).
+Proof.
+  intros Hok Hs. unfold write_nl.
+  apply recl_of_lines; [exact Hok | exact Hs | apply chunks_pieces | apply chunks_concat].
+Qed.
+
+Lemma layout_write_nl nl rs : sep nl -> Forall fa_ok rs ->
+  Layout rs (concat (map (write_nl nl) rs)).
+Proof.
+  intros Hs H. apply layout_of_render.
+  eapply Forall_impl; [|exact H]. cbn beta. intros r Hr l. apply recl_write_nl; assumption.
+Qed.
+
+Lemma map_write_eq rs : map write rs = map (write_nl [LF]) rs.
+Proof. apply map_ext. exact write_is_write_nl. Qed.
+
+Lemma writer_is_layout rs : Forall fa_ok rs -> Layout rs (concat (map write rs)).
+Proof. intros H. rewrite map_write_eq. apply layout_write_nl; [apply sep_lf | exact H]. Qed.
+
+Lemma write_read_roundtrip rs : Forall fa_ok rs -> decode (concat (map write rs)) TEOF = map Rec rs.
+Proof. intros H. apply layout_roundtrip. apply writer_is_layout. exact H. Qed.
+
+Lemma nl_variant_roundtrip nl rs : sep nl -> Forall fa_ok rs ->
+  decode (concat (map (write_nl nl) rs)) TEOF = map Rec rs.
+Proof. intros Hs H. apply layout_roundtrip. apply layout_write_nl; assumption. Qed.
+
+Lemma crlf_roundtrip rs : Forall fa_ok rs ->
+  decode (concat (map (write_nl [CR; LF]) rs)) TEOF = map Rec rs.
+Proof. apply nl_variant_roundtrip. apply sep_crlf. Qed.
+
+(* ---- re-wrapping at arbitrary widths ------------------------------------- *)
+
+Lemma cut_concat ws : forall s, concat (cut ws s) = s.
+Proof.
+  induction ws as [|w ws IH]; intros s; destruct s as [|b s]; try reflexivity.
+  - cbn [cut concat]. apply app_nil_r.
+  - change (cut (w :: ws) (b :: s))
+      with (firstn (S w) (b :: s) :: cut ws (skipn (S w) (b :: s))).
+    cbn [concat]. rewrite IH. apply firstn_skipn.
+Qed.
+
+Lemma cut_pieces ws : forall s, Forall (fun c => (1 <= length c)%nat) (cut ws s).
+Proof.
+  induction ws as [|w ws IH]; intros s; destruct s as [|b s].
+  - constructor.
+  - cbn [cut]. constructor; [cbn [length]; lia | constructor].
+  - constructor.
+  - change (cut (w :: ws) (b :: s))
+      with (firstn (S w) (b :: s) :: cut ws (skipn (S w) (b :: s))).
+    constructor; [cbn [firstn length]; lia | apply IH].
+Qed.
+
+Lemma recl_render nl ws l r : fa_ok r -> sep nl -> RecL l r (render nl ws r).
+Proof.
+  intros Hok Hs. unfold render.
+  apply recl_of_lines; [exact Hok | exact Hs | apply cut_pieces | apply cut_concat].
+Qed.
+
+(* every record may have its own separator and its own line widths *)
+Lemma rewrap_roundtrip (nl : fasta -> bytes) (ws : fasta -> list nat) rs :
+  Forall fa_ok rs -> Forall (fun r => sep (nl r)) rs ->
+  decode (concat (map (fun r => render (nl r) (ws r) r) rs)) TEOF = map Rec rs.
+Proof.
+  intros H Hs. apply layout_roundtrip.
+  apply (layout_of_render (fun r => render (nl r) (ws r) r)).
+  rewrite Forall_forall in *. intros r Hin l. apply recl_render; auto.
+Qed.
+
+(* ---- trailing line breaks are ignored ------------------------------------- *)
+
+Definition all_nl (s : bytes) : Prop := Forall (fun b => is_nl b = true) s.
+
+Lemma rd_nls_end s : all_nl s -> forall st nm sq, st <> SStart ->
+  rd_loop st nm sq true s = ((nm, sq, true), None).
+Proof.
+  induction 1 as [|b s Hb _ IH]; intros st nm sq Hst; [reflexivity|].
+  cbn [rd_loop]. destruct st; try congruence; rewrite Hb; apply IH; discriminate.
+Qed.
+
+Lemma rd_loop_any inp : forall st nm sq nm' sq' any' o,
+  rd_loop st nm sq true inp = ((nm', sq', any'), o) -> any' = true.
+Proof.
+  induction inp as [|b inp IH]; intros st nm sq nm' sq' any' o H.
+  - cbn in H. congruence.
+  - cbn [rd_loop] in H. destruct st.
+    + destruct (b =? GT); [|destruct (is_nl b)]; eapply IH; exact H.
+    + destruct (is_nl b); [eapply IH; exact H|].
+      destruct (b =? GT); [congruence | eapply IH; exact H].
+    + destruct (is_nl b); eapply IH; exact H.
+    + destruct (is_nl b); eapply IH; exact H.
+Qed.
+
+Lemma rd_loop_some_nonnil inp : forall st nm sq any r rest,
+  rd_loop st nm sq any inp = (r, Some rest) -> rest <> [].
+Proof.
+  induction inp as [|b inp IH]; intros st nm sq any r rest H.
+  - cbn in H. congruence.
+  - cbn [rd_loop] in H. destruct st.
+    + destruct (b =? GT); [|destruct (is_nl b)]; eapply IH; exact H.
+    + destruct (is_nl b); [eapply IH; exact H|].
+      destruct (b =? GT); [|eapply IH; exact H].
+      injection H as _ <-. discriminate.
+    + destruct (is_nl b); eapply IH; exact H.
+    + destruct (is_nl b); eapply IH; exact H.
+Qed.
+
+Lemma rd_loop_trailing s : all_nl s -> forall inp st nm sq, st <> SStart ->
+  rd_loop st nm sq true (inp ++ s) =
+  match rd_loop st nm sq true inp with
+  | (r, Some rest) => (r, Some (rest ++ s))
+  | (r, None) => (r, None)
+  end.
+Proof.
+  intros Hs. induction inp as [|b inp IH]; intros st nm sq Hst.
+  - cbn [app rd_loop]. apply rd_nls_end; assumption.
+  - cbn [app rd_loop]. destruct st; try congruence.
+    + destruct (is_nl b); [apply IH; discriminate|].
+      destruct (b =? GT); [reflexivity | apply IH; discriminate].
+    + destruct (is_nl b); apply IH; discriminate.
+    + destruct (is_nl b); apply IH; discriminate.
+Qed.
+
+Lemma read_one_trailing s inp : all_nl s -> inp <> [] ->
+  (exists r rest, rest <> [] /\ read_one inp TEOF = RdRec r rest
+                  /\ read_one (inp ++ s) TEOF = RdRec r (rest ++ s))
+  \/ (exists r, read_one inp TEOF = RdRec r [] /\ read_one (inp ++ s) TEOF = RdRec r []).
+Proof.
+  intros Hs Hne. destruct inp as [|b inp]; [congruence|].
+  assert (E : exists st nm sq, st <> SStart /\ forall tl,
+    rd_loop SStart [] [] false (b :: tl) = rd_loop st nm sq true tl).
+  { destruct (b =? GT) eqn:G; [|destruct (is_nl b) eqn:Nl].
+    - exists SName, [], []. split; [discriminate|]. intros tl. cbn [rd_loop]. rewrite G. reflexivity.
+    - exists SNewLine, [], []. split; [discriminate|]. intros tl. cbn [rd_loop]. rewrite G, Nl. reflexivity.
+    - exists SSeq, [], [b]. split; [discriminate|]. intros tl. cbn [rd_loop]. rewrite G, Nl. reflexivity. }
+  destruct E as (st & nm & sq & Hst & E).
+  unfold read_one. change ((b :: inp) ++ s) with (b :: inp ++ s). rewrite !E.
+  rewrite (rd_loop_trailing s Hs inp st nm sq Hst).
+  destruct (rd_loop st nm sq true inp) as [[[nm' sq'] any'] [rest|]] eqn:R.
+  - left. exists (mk_result nm' sq'), rest. split; [|split; reflexivity].
+    exact (rd_loop_some_nonnil _ _ _ _ _ _ _ R).
+  - right. apply rd_loop_any in R. subst any'. cbn [negb].
+    exists (mk_result nm' sq'). split; reflexivity.
+Qed.
+
+Lemma decode_fuel_trailing s : all_nl s -> forall f inp, inp <> [] ->
+  decode_fuel f (inp ++ s) TEOF = decode_fuel f inp TEOF.
+Proof.
+  intros Hs. induction f as [|f IH]; intros inp Hne; [reflexivity|].
+  cbn [decode_fuel].
+  destruct (read_one_trailing s inp Hs Hne) as [(r & rest & Hr & E1 & E2) | (r & E1 & E2)];
+    rewrite E1, E2.
+  - f_equal. apply IH. exact Hr.
+  - reflexivity.
+Qed.
+
+Lemma trailing_newlines_ignored L s : L <> [] -> all_nl s ->
+  decode (L ++ s) TEOF = decode L TEOF.
+Proof.
+  intros Hne Hs. unfold decode at 1.
+  rewrite (decode_fuel_trailing s Hs) by exact Hne.
+  apply decode_fuel_sufficient. rewrite app_length. lia.
+Qed.
+
+(* ---- the writer's output without its final newline ------------------------- *)
+
+Lemma lines_end cs :
+  concat (map (fun c => c ++ [LF]) cs) = []
+  \/ exists x, concat (map (fun c => c ++ [LF]) cs) = x ++ [LF].
+Proof.
+  induction cs as [|c cs IH]; [left; reflexivity|]. right. cbn [map concat].
+  destruct IH as [-> | [x ->]].
+  - exists c. rewrite app_nil_r. reflexivity.
+  - exists (c ++ [LF] ++ x). rewrite <- !app_assoc. reflexivity.
+Qed.
+
+Lemma write_end r : exists x, write r = (GT :: x) ++ [LF].
+Proof.
+  rewrite write_eq. destruct (lines_end (chunks (seq r))) as [-> | [x ->]].
+  - exists (name r). rewrite app_nil_r. reflexivity.
+  - exists (name r ++ [LF] ++ x). cbn [app]. rewrite <- !app_assoc. reflexivity.
+Qed.
+
+Lemma writes_end rs : rs <> [] ->
+  exists y, y <> [] /\ concat (map write rs) = y ++ [LF].
+Proof.
+  induction rs as [|r rs IH]; intros N; [congruence|].
+  cbn [map concat]. destruct (write_end r) as [x ->].
+  destruct rs as [|r' rs'].
+  - cbn [map concat]. exists (GT :: x). split; [discriminate|]. apply app_nil_r.
+  - destruct IH as (y & _ & ->); [discriminate|].
+    exists (((GT :: x) ++ [LF]) ++ y). split; [discriminate|].
+    rewrite <- !app_assoc. reflexivity.
+Qed.
+
+Lemma no_final_newline rs : Forall fa_ok rs -> rs <> [] ->
+  decode (removelast (concat (map write rs))) TEOF = map Rec rs.
+Proof.
+  intros H N. destruct (writes_end rs N) as (y & Hy & E).
+  rewrite <- (write_read_roundtrip rs H). rewrite E.
+  rewrite removelast_last. symmetry.
+  apply trailing_newlines_ignored; [exact Hy | repeat constructor].
+Qed.
